@@ -98,7 +98,7 @@ func runDebug(cmd, repo string, args []string) {
 			}
 		}
 		st := &ExploreStats{}
-		dis, und := Explore(m, sel, multi, st, 16)
+		dis, und := Explore(m, sel, multi, st, 16, os.Getenv("OJGCHECK_NOREF") != "")
 		fmt.Printf("states=%d transitions=%d armruns=%d rounds=%d modes=%d in %.2fs\n", st.States, st.Transitions, st.ArmRuns, st.Rounds, len(st.Modes), time.Since(t0).Seconds())
 		var keys []string
 		for k := range dis {
